@@ -56,8 +56,25 @@ def plan_st(draw, tier, max_prefix=6, max_cont=8):
     return {"config": cfg, "prefix": h.ops[:n_prefix], "cont": h.ops[n_prefix:]}
 
 
+@st.composite
+def failed_fit_plan_st(draw, tier):
+    """A bandit whose (first) training call failed part-way (checks/c07.py builds such histories: l2_lambda=0, a batch
+    singular for a later arm) is copied: the copy must go on exactly like the original, exceptions included."""
+    from checks import c07
+    p = draw(c07.failed_call_plan_st(tier))
+    cont = [[draw(st.sampled_from(["partial_fit", "fit"]))] + list(p["refit"][1:])] + list(p["cont"])
+    return {"config": p["config"], "prefix": p["prior"], "cont": cont, "may_fail": True}
+
+
+@st.composite
+def any_plan_st(draw, tier):
+    if draw(st.integers(0, 15)) == 0:
+        return draw(failed_fit_plan_st(tier))
+    return draw(plan_st(tier))
+
+
 def strategy(tier, ctx):
-    return plan_st(tier)
+    return any_plan_st(tier)
 
 
 def nontrivial(plan):
@@ -77,7 +94,11 @@ def nontrivial(plan):
 def evaluate(plan, ctx):
     cfg = plan["config"]
     b = ops.build(cfg)
-    twin.must_succeed(b, plan["prefix"], "prefix")
+    may_fail = plan.get("may_fail", False)
+    if may_fail:
+        ops.run_ops(b, plan["prefix"])
+    else:
+        twin.must_succeed(b, plan["prefix"], "prefix")
     copies = []
     try:
         copies.append(("deepcopy", copy.deepcopy(b)))
@@ -93,7 +114,7 @@ def evaluate(plan, ctx):
         outs[name] = ops.run_ops(c, plan["cont"])
     outs["original"] = ops.run_ops(b, plan["cont"])    # ... the original afterwards
     for i, o in enumerate(outs["original"]):
-        if ops.is_exc(o):
+        if ops.is_exc(o) and not may_fail:
             raise Violation("unexpected_exception", "continuation op %d %s raised %s" % (i, plan["cont"][i][0], ops.short(o)),
                             bucket="unexpected_exception:%s:%s" % (plan["cont"][i][0], o[1]))
     for name, _ in copies:
@@ -103,7 +124,10 @@ def evaluate(plan, ctx):
                             % (name, d, ops.short(plan["cont"][d], 120), ops.short(outs["original"][d]),
                                ops.short(outs[name][d])), bucket="copy_differs:" + ("deepcopy" if name == "deepcopy" else "pickle"))
     r = ops.build(cfg)
-    twin.must_succeed(r, plan["prefix"], "rebuild prefix")
+    if may_fail:
+        ops.run_ops(r, plan["prefix"])
+    else:
+        twin.must_succeed(r, plan["prefix"], "rebuild prefix")
     outs_r = ops.run_ops(r, plan["cont"])
     d = ops.first_diff(outs["original"], outs_r)
     if d is not None:
@@ -111,7 +135,9 @@ def evaluate(plan, ctx):
                         % (d, ops.short(plan["cont"][d], 120), ops.short(outs["original"][d]), ops.short(outs_r[d])))
     ev = twin.pair_events(cfg) + ["copy_before_fit" if not any(op[0] in ops.TRAIN_OPS for op in plan["prefix"])
                                   else "copy_after_training"]
-    return Result(nontrivial(plan), ev)
+    if may_fail:
+        ev.append("copied_after_a_training_call_that_failed_part_way")
+    return Result(nontrivial(plan) or may_fail, ev)
 
 
 # ---- cross-process restore --------------------------------------------------------------------------------
